@@ -565,12 +565,53 @@ pub fn terms_oracle(c: &TermsCase) -> Verdict {
             let mut kw = KeywordListBuilder::new();
             let mut mb = AtomKeyMapBuilder::new();
             let keys: Vec<String> = (0..terms.len()).map(|i| s(i)).collect();
-            for (k, v) in keys.iter().zip(terms.iter()) {
-                kw = kw.put_term(k, v.clone());
-                mb = mb.insert_term(k, v.clone());
+            // every way of adding an entry; what each call is documented to add is tracked beside it
+            let mut terms = terms.clone();
+            for (i, (k, v)) in keys.iter().zip(terms.clone().iter()).enumerate() {
+                match (i + c.arity as usize) % 7 {
+                    0 => {
+                        kw = kw.put_term(k, v.clone());
+                        mb = mb.insert_term(k, v.clone());
+                    }
+                    1 => {
+                        kw = kw.put(k, v.clone());
+                        mb = mb.insert(k, v.clone());
+                    }
+                    2 => {
+                        kw = kw.put_if(true, k, v.clone()).put_if(false, "never_added", v.clone());
+                        mb = mb.insert_if(true, k, v.clone()).insert_if(false, "never_added", v.clone());
+                    }
+                    3 => {
+                        kw = kw.put_some(k, Some(v.clone())).put_some("never_added", None::<OwnedTerm>);
+                        mb = mb.insert_some(k, Some(v.clone())).insert_some("never_added", None::<OwnedTerm>);
+                    }
+                    4 => {
+                        kw = kw.put_atom(k, "an_atom");
+                        mb = mb.insert_atom(k, "an_atom");
+                        terms[i] = OwnedTerm::Atom(Atom::new("an_atom"));
+                    }
+                    5 => {
+                        kw = kw.put_flag(k);
+                        mb = mb.insert(k, true);
+                        terms[i] = OwnedTerm::boolean(true);
+                    }
+                    _ => {
+                        kw = kw.put_term(k, v.clone());
+                        mb = mb.insert_term(k, v.clone());
+                    }
+                }
+            }
+            if kw.len() != keys.len() {
+                vfail!("keyword-list-lookup-wrong", "builder holds {} entries after {} additions", kw.len(), keys.len());
             }
             let kwt = kw.build();
             let mt = mb.build();
+            if kwt.proplist_get_atom_key("never_added").is_some() && !keys.iter().any(|k| k == "never_added") {
+                vfail!("keyword-list-lookup-wrong", "an entry guarded by a false condition / None was added");
+            }
+            if mt.map_get_atom_key("never_added").is_some() && !keys.iter().any(|k| k == "never_added") {
+                vfail!("atom-key-map-lookup-wrong", "an entry guarded by a false condition / None was added");
+            }
             for (i, k) in keys.iter().enumerate() {
                 let first = keys.iter().position(|x| x == k).unwrap();
                 let last = keys.iter().rposition(|x| x == k).unwrap();
